@@ -15,4 +15,21 @@ NameTable == <<
   <<<<3, 8, 0>>, "reactive_power_import_total">>, <<<<4, 8, 0>>, "reactive_power_export_total">> >>
 Known(cde) == \E i \in 1..Len(NameTable) : NameTable[i][1] = cde
 NameOf(cde) == NameTable[CHOOSE i \in 1..Len(NameTable) : NameTable[i][1] = cde][2]
+(* The register catalogue han/obis.py OBIS_CODES, stated by rule (IEC 62056-61 value group C = 20*phase + quantity,     *)
+(* D = 7 instantaneous / 8 time integral) instead of by table: unit, category and phase follow from the code.          *)
+NoPhase == -1
+Quantity(c) == c % 20
+PhaseOfC(c) == IF c >= 21 THEN c \div 20 ELSE NoPhase
+UnitOfCode(c, d) == LET q == Quantity(c) IN
+  IF q \in {1, 2} THEN (IF d = 7 THEN "kW" ELSE "kWh")
+  ELSE IF q \in {3, 4} THEN (IF d = 7 THEN "kvar" ELSE "kvarh")
+  ELSE IF q = 11 THEN "A" ELSE IF q = 12 THEN "V" ELSE ""
+CategoryOfCode(c, d) == LET q == Quantity(c) IN
+  IF d = 7 THEN (IF q \in 1..4 THEN "INSTANTANEOUS_POWER" ELSE "EL_NET_QUALITY")
+  ELSE IF PhaseOfC(c) # NoPhase THEN "ACTIVE_ENERGY_PHASES"
+  ELSE IF q \in {1, 2} THEN "ACTIVE_ENERGY" ELSE "REACTIVE_ENERGY"
+CatalogueDomain(c, d, e) == /\ e = 0 /\ d \in {7, 8} /\ PhaseOfC(c) \in {NoPhase, 1, 2, 3}
+                            /\ Quantity(c) \in (IF d = 7 THEN {1, 2, 3, 4, 11, 12, 13} ELSE IF PhaseOfC(c) = NoPhase THEN 1..4 ELSE {1, 2})
+\* every measurement the decoders name (D = 7 or 8 in NameTable) has a catalogue entry
+NamedMeasurements == {NameTable[i][1] : i \in {j \in 1..Len(NameTable) : NameTable[j][1][2] \in {7, 8}}}
 =============================================================================
